@@ -4,10 +4,11 @@ NAME="$1"; PROP="$2"; TIER="${3:-quick}"
 cd /verif
 git -C /repo diff --quiet || { echo "/repo is dirty"; exit 2; }
 git -C /repo apply /verif/seeded/$NAME/patch.diff || exit 2
+cp -a /verif/evidence /tmp/evidence-save-$$
 ./check $PROP $TIER > /tmp/seedrun-$NAME-$PROP.log 2>&1; rc=$?
 git -C /repo checkout -- . 
 echo "seed $NAME vs check $PROP ($TIER): exit=$rc"
 grep "VIOLATION\|HARNESS-ERROR\|KNOWN-FINDING\|obligation:" /tmp/seedrun-$NAME-$PROP.log | cut -c1-260 | head -8
 grep "tier=" /tmp/seedrun-$NAME-$PROP.log | cut -c1-200
 rm -f /tmp/seedrun-$NAME-$PROP.log
-git -C /verif checkout -- evidence 2>/dev/null
+rm -rf /verif/evidence && mv /tmp/evidence-save-$$ /verif/evidence
